@@ -5,6 +5,9 @@
 //! build with `RUSTFLAGS="--cfg ascent_verif"` (hook H1) so that the `std::collections` tables
 //! of `ascent` are the model as well.
 #![allow(clippy::all)]
+#![cfg_attr(kani, feature(allocator_api))]
+#[cfg(kani)]
+extern crate alloc;
 
 #[cfg(kani)]
 pub mod stubs;
